@@ -142,6 +142,8 @@ func (v VD) Go() any {
 		return buildERoot(v)
 	case "page":
 		return buildPage(v)
+	case "mapsls", "mapsla", "mapsm", "mapsli", "mapsp":
+		return buildTypedMap(v)
 	case "mapaa", "mapas", "mapns":
 		return buildAnyMap(v)
 	case "mapis":
